@@ -34,6 +34,9 @@ class TernaryPass(AbstractPass):
         return m
 
     def new(self, test_case, _=None):
+        # validate the argument in the main process (transform runs in a worker)
+        if self.arg not in ['b', 'c']:
+            raise UnknownArgumentError(self.__class__.__name__, self.arg)
         return self.__get_next_match(test_case, pos=0)
 
     def advance(self, test_case, state):
